@@ -68,6 +68,23 @@ pub fn read_busy(path: &std::path::Path) -> Vec<(usize, u64)> {
     out
 }
 
+/// parent side: (slot, part, idx) of every slot that is busy right now
+pub fn read_busy_slots(path: &std::path::Path) -> Vec<(usize, usize, u64)> {
+    let Ok(bytes) = std::fs::read(path) else { return vec![] };
+    let mut out = vec![];
+    for s in 0..SLOTS {
+        let at = s * SLOT_BYTES;
+        if bytes.len() < at + SLOT_BYTES {
+            break;
+        }
+        let w = |k: usize| u64::from_le_bytes(bytes[at + 8 * k..at + 8 * k + 8].try_into().unwrap());
+        if w(0) == 1 {
+            out.push((s, w(1) as usize, w(2)));
+        }
+    }
+    out
+}
+
 /// runs named by VERIF_SKIP_RUNS ("part:idx,part:idx") are not executed (they are known to kill the process)
 pub fn skip_list() -> Vec<(usize, u64)> {
     std::env::var("VERIF_SKIP_RUNS")
